@@ -364,7 +364,7 @@ def check(tier, seed, t0):
     merged = common.merge(results)
     c = merged["counters"]
     tried = max(1, c.get("targets_tried", 0))
-    guards = [("adversarial requests", c.get("targets_tried", 0), 9000 if not th else 40000), ("share of targets that reached a handler (percent)", 100 * c.get("targets_reached_handler", 0) // tried, 90),
+    guards = [("adversarial requests", c.get("targets_tried", 0), 9000 if not th else 40000), ("share of targets that reached a handler (percent)", 100 * c.get("targets_reached_handler", 0) // tried, 85),
               ("audit events judged", c.get("fs_events_judged", 0), 100000 if not th else 500000), ("events inside the root (workload really touched the store)", c.get("fs_events_inside_root", 0), 20000)]
     for m in ("GET", "PUT", "DELETE", "MKCOL", "MKCALENDAR", "PROPFIND", "PROPPATCH", "REPORT", "POST"):
         guards.append(("method " + m, c.get("method:" + m, 0), 50))
